@@ -116,8 +116,11 @@ Theorem C06_bvsge : forall I a b w x y, eval I a = VBV w x -> eval I b = VBV w y
   eval I (mk_bvsge a b) = VBool (to_signed w y <=? to_signed w x).
 Proof. exact bvsge_sem. Qed.
 
-(* ---- repeat: accepted iff count >= 1, and then count copies (width count * w) *)
-Theorem C06_repeat : forall I f count w x, eval I f = VBV w x ->
+(* ---- repeat: accepted iff count >= 1 and the operand is a bit-vector; then count copies (width count * w) *)
+Theorem C06_repeat_domain : forall f count,
+  (exists t, mk_bvrepeat f count = Some t) <-> (1 <= count /\ exists w, tc f = Some (TBV w)).
+Proof. exact repeat_accept. Qed.
+Theorem C06_repeat : forall I f count w x, tc f = Some (TBV w) -> eval I f = VBV w x ->
   ((exists t, mk_bvrepeat f count = Some t) <-> 1 <= count) /\
   (forall t, mk_bvrepeat f count = Some t ->
      eval I t = VBV (count * w) (rep_val w x (Z.to_nat (count - 1)))).
@@ -224,6 +227,7 @@ Print Assumptions C06_abs_real.
 Print Assumptions C06_sbv.
 Print Assumptions C06_bvsmod.
 Print Assumptions C06_bvnand.
+Print Assumptions C06_repeat_domain.
 Print Assumptions C06_repeat.
 Print Assumptions C06_bvadd_n.
 Print Assumptions C06_bvconcat_n.
